@@ -1,5 +1,6 @@
 import Pathrs.Proofs.SafeRoot
 import Pathrs.Proofs.LedgerProofs
+import Pathrs.Proofs.SessionLedger
 
 /-!
 # C11 — calls leave the descriptor table unchanged except for the returned fd
@@ -181,3 +182,29 @@ theorem C11_balance_remove_all (env : Env) (root : Root) (path : Bytes) (ext : L
     BalancedNone ext (Root.removeAll env root path) :=
   removeAll_balanced env root path ext hroot hproc hr0 hp0
 
+
+/-! ### a whole session: at most one long-lived descriptor -/
+
+open Ledger LedgerProofs Session SessionLedger in
+/-- **After any sequence of library calls of one process** — each balanced on its own, as the `C11_balance_*` theorems
+say of every operation — started with the process-global procfs cell (`GLOBAL_PROCFS_CELL`) empty: the descriptors the
+process holds are exactly those handed back to the caller by the successful calls, plus at most one more, the
+process-global procfs handle created by the first call that needed it (`cellFds cell` is `[]` or `[h.fd]`).  Nothing
+else is left behind by the first use or by any later one; a failed creation leaves the cell empty and nothing open. -/
+theorem C11_session_at_most_one_long_lived (env : Env) (ext : List Fd) (steps : List Step)
+    (hs : ∀ s ∈ steps, StepOk ext s) (h0 l : Hist) (rs : List (Except Err Fd)) (cell : Option ProcH)
+    (hr : Runs (session env none steps) h0 (h0 ++ l) (rs, cell)) (hf : Fresh ext [] l) :
+    anyFatal rs ∨ ∃ o, ledger [] l = some o ∧ o.Perm (returned rs ++ cellFds cell) :=
+  session_balanced env ext steps hs h0 l rs cell hr hf
+
+open Ledger LedgerProofs Session SessionLedger in
+/-- once the cell is filled it never changes and no call creates another handle -/
+theorem C11_session_filled (env : Env) (ext : List Fd) (hcell : ProcH) (hc : hcell.fd ∈ ext) (hc0 : 0 ≤ hcell.fd)
+    (steps : List Step) (hs : ∀ s ∈ steps, StepOk ext s) (h0 l : Hist) (rs : List (Except Err Fd)) (cell : Option ProcH)
+    (hr : Runs (session env (some hcell) steps) h0 (h0 ++ l) (rs, cell)) (hf : Fresh ext [] l) :
+    cell = some hcell ∧ (anyFatal rs ∨ ∃ o, ledger [] l = some o ∧ o.Perm (returned rs)) :=
+  session_balanced_filled env ext hcell hc hc0 steps hs h0 l rs cell hr hf
+
+open Session SessionLedger in
+/-- the hypotheses are satisfiable: a plain `openat` followed by a `reopen` (which needs the global handle) -/
+example (env : Env) (ext : List Fd) : ∀ s ∈ exampleSteps env, StepOk ext s := exampleSteps_ok env ext
